@@ -15,7 +15,7 @@
    Granularity: one [step] of thread t = the access at the yield site t is blocked at (hook sites
    100..130 of utils.rs / strong.rs, plus the harness' operation-start site 1) followed by the
    thread-local computation up to its next yield site.  EBR-internal sites are not yield points.
-   Count words go through the GENERATED Gen/StateW.v, the reclaim decision and the merged stamp
+   Count words go through the GENERATED Gen/StateW.v, the reclaim decision and the merged (clamped) stamp
    through the GENERATED Gen/DisposeW.v.  Memory model: SC (utils.rs is all SeqCst).
    Tags are not modelled here (Cell.v does); timestamps of links and pointers are. *)
 From Coq Require Import ZArith List Bool Lia.
@@ -643,7 +643,7 @@ Definition micro (s : state) (t : nat) (rec : list Z) : option (state * list Z) 
           | None => ret (set_err s 5) x k []
           | Some ob =>
               let wc := word ob in
-              let nxt := with_epoch (sub_strong wc 1) (wrap 64 (merged curr ne (snd c) (epoch wc))) in
+              let nxt := with_epoch (sub_strong wc 1) (wrap 64 (child_stamp curr ne (snd c) (epoch wc))) in
               ret s x (FKid119 c wc nxt depth ne curr outs :: k) [118; zo (fst c); snd c; 1018; zo (fst c); wc]
           end
       | FKid119 c wc nxt depth ne curr outs =>
